@@ -7,11 +7,12 @@
 (*   [cid  |-> cell identity (becomes the cell id in 4.5 notebooks),       *)
 (*    fam  |-> content family (which text the source derives from),        *)
 (*    kind |-> "code" | "markdown" | "raw",                                 *)
-(*    src  |-> 0..3  source variant: 0 family text, 1 small edit (stays    *)
+(*    src  |-> 0..4  source variant: 0 family text, 1 small edit (stays    *)
 (*             "strictly similar"), 2 moderate edit (only approximately    *)
-(*             similar), 3 rewritten (dissimilar),                         *)
+(*             similar), 3 rewritten (dissimilar), 4 emptied,              *)
 (*    outs |-> 0..6  output-list variant (code cells),                     *)
-(*    md   |-> 0..2  cell metadata variant,                                *)
+(*    md   |-> 0..4  cell metadata variant (2..4 share a tags list that    *)
+(*             grows differently),                                         *)
 (*    ec   |-> 0..2  execution count variant,                              *)
 (*    att  |-> 0..3  attachments variant (markdown cells)]                 *)
 (* and an abstract notebook is [minor, nbmd, cells].  harness/concretize.py *)
@@ -72,7 +73,9 @@ Runs == << << <<7, 0>> >>,
            << <<21, 0>>, <<22, 0>>, <<7, 0>> >>,
            << <<21, 0>>, <<22, 0>>, <<7, 1>> >>,
            << <<22, 0>>, <<7, 1>>, <<8, 0>> >>,
-           << <<7, 1>>, <<21, 0>> >> >>
+           << <<7, 1>>, <<21, 0>> >>,
+           << <<7, 0>>, <<8, 0>> >>,
+           << <<7, 1>>, <<22, 0>> >> >>
 RunKind(f) == IF f \in {7, 21} THEN "code" ELSE "markdown"
 RunCells(run) == [k \in 1..Len(run) |->
                     Cell(40 + run[k][1], run[k][1], RunKind(run[k][1]), run[k][2],
@@ -119,12 +122,15 @@ Edits(nb) ==
        i \in 1..n })
   \cup
   { <<[a |-> "EditSource", pos |-> i, v |-> v], SetField(i, "src", v)>> :
-      i \in 1..n, v \in {q \in 0..3 : TRUE} }
+      i \in 1..n, v \in 0..4 }
+  \cup
+  \* give a cell a new identity (both sides may re-id the same cell differently)
+  { <<[a |-> "ReId", pos |-> i, v |-> c], SetField(i, "cid", c)>> : i \in 1..n, c \in fresh }
   \cup
   { <<[a |-> "EditOutputs", pos |-> i, v |-> v], SetField(i, "outs", v)>> :
       i \in {q \in 1..n : nb.cells[q].kind = "code"}, v \in 0..6 }
   \cup
-  { <<[a |-> "EditCellMeta", pos |-> i, v |-> v], SetField(i, "md", v)>> : i \in 1..n, v \in 0..2 }
+  { <<[a |-> "EditCellMeta", pos |-> i, v |-> v], SetField(i, "md", v)>> : i \in 1..n, v \in 0..4 }
   \cup
   { <<[a |-> "SetExecCount", pos |-> i, v |-> v], SetField(i, "ec", v)>> :
       i \in {q \in 1..n : nb.cells[q].kind = "code"}, v \in 0..2 }
@@ -173,8 +179,8 @@ IsNb(nb) == /\ nb.minor \in 0..5
             /\ nb.nbmd \in 0..2
             /\ \A i \in 1..Len(nb.cells) :
                   /\ nb.cells[i].kind \in {"code", "markdown", "raw"}
-                  /\ nb.cells[i].src \in 0..3 /\ nb.cells[i].outs \in 0..6
-                  /\ nb.cells[i].md \in 0..2 /\ nb.cells[i].ec \in 0..2 /\ nb.cells[i].att \in 0..3
+                  /\ nb.cells[i].src \in 0..4 /\ nb.cells[i].outs \in 0..6
+                  /\ nb.cells[i].md \in 0..4 /\ nb.cells[i].ec \in 0..2 /\ nb.cells[i].att \in 0..3
 TypeOK == IsNb(base) /\ IsNb(local) /\ IsNb(remote)
 
 UniqueCids == \A nb \in {base, local, remote} :
